@@ -136,6 +136,14 @@ def block_names(rng, g):
         "[1, 2] {let %s := %s; {|A| A %s}} apply apply" % (w, a, w),
         "[1, 2] %s {|A %s| A %s}  apply" % (b, w, w),
         "[5] {|A| A %s} apply" % w,                          # control: the word itself inside a block
+        # the assertion blocks `?{ … }` / `!{ … }`: a scope of their own, in both polarities
+        "let A := %s; 5 !{let A := %s; A 0 ?eq} apply A" % (a, b),
+        "let A := %s; 5 ?{let A := %s; A %s ?eq} apply A" % (a, b, b),
+        "(1, 2) ?{let B := %s;} apply B" % a,
+        "(1, 2) !{let B := %s; 0 1 ?eq} apply B" % a,
+        "%s !{|X| X %s ?eq} apply" % (a, b),
+        "%s ?{|X| let Y := X; Y %s ?eq} let X := 9; apply X" % (a, a),
+        "let F := !{let A := %s; A 0 ?lt}; let A := %s; %s F A" % (a, b, a),
     ])
 
 
